@@ -182,6 +182,11 @@ def parallel(
     pbar = tqdm(total=total_jobs, desc=pbar, leave=True) if pbar else None
 
     def yield_results():
+        if os.environ.get("ACCELFORGE_VERIF_SCHEDULE_SEED"):
+            # Verification hook (off unless the variable is set): results arrive in a
+            # seeded, permuted completion order instead of whatever loky produces.
+            yield from _verif_scheduled_results(jobs, args.get("return_as"), pbar)
+            return
         for result in Parallel(n_jobs=n_jobs, **args)(jobs):
             if pbar:
                 pbar.update(1)
@@ -203,6 +208,39 @@ def parallel(
     for i, result in yield_results():
         results[i] = result
     return results
+
+
+_VERIF_SCHEDULE_CALLS = 0
+_VERIF_SCHEDULE_LOG = []
+
+
+def _verif_scheduled_results(jobs, return_as, pbar):
+    """Verification hook behind ACCELFORGE_VERIF_SCHEDULE_SEED. Runs the jobs in this
+    process in submission order, with arguments and results round-tripped through pickle
+    as a worker process would, and delivers the results in a completion order drawn from
+    the seed and the call index (submission order for return_as="generator"/"list")."""
+    import pickle
+    import random
+    import cloudpickle
+
+    global _VERIF_SCHEDULE_CALLS
+    _VERIF_SCHEDULE_CALLS += 1
+    seed = os.environ["ACCELFORGE_VERIF_SCHEDULE_SEED"]
+    rng = random.Random(f"{seed}:{_VERIF_SCHEDULE_CALLS}")
+    results = []
+    for j in jobs:
+        f, a, k = cloudpickle.loads(cloudpickle.dumps((j[0], j[1], j[2])))
+        results.append(pickle.loads(pickle.dumps(f(*a, **k))))
+    order = list(range(len(results)))
+    if return_as == "generator_unordered":
+        rng.shuffle(order)
+    _VERIF_SCHEDULE_LOG.append(tuple(order))
+    for i in order:
+        if pbar:
+            pbar.update(1)
+        yield results[i]
+    if pbar:
+        pbar.close()
 
 
 # import cProfile
